@@ -21,7 +21,7 @@ EXPLANATION = ('The index functions are executed on a symbolic 64-bit index with
                'forward(inverse) round trips, ANSI j = (n(n+2)+m)/2, Noll parity rule and injectivity per row; every bit-vector operation '
                'carries a no-overflow side obligation.')
 BOUNDS = {'quick': 'ANSI/Fringe/Noll(stage A): every index < 2^17 (covers 10^5); inverse directions: n < 2^9; Noll rows (stage B) n <= 60; XY j <= 300 (CrossHair)',
-          'thorough': 'indices < 2^20 split per binade; inverse directions n < 2^10; Noll rows n <= 160; XY j <= 800'}
+          'thorough': 'indices < 2^18 split per binade; inverse directions n < 2^10; Noll rows n <= 90; XY j <= 500'}
 OUTSIDE = 'indices >= the bound; nm_to_name, top_n, zernikes_to_magnitude_angle'
 ASSUMPTIONS = ['Noll stage B (per row) uses the radial order proved in stage A as a lemma (n == n0 for every index of row n0)',
                'Fringe stage B runs the float arithmetic after ceil(sqrt(j)) in exact-float mode: each operation carries the side obligation that its exact result is a multiple of 1/4 below 2^50, hence returned exactly by the correctly-rounded IEEE operation; ceil(sqrt(j)) itself is the stage-A lemma']
@@ -31,7 +31,7 @@ VERIF = os.path.dirname(os.path.dirname(os.path.abspath(__file__)))
 
 def configs(tier):
     q = tier == 'quick'
-    K = 17 if q else 20        # thorough sized for about half an hour on 16 cores
+    K = 17 if q else 18        # thorough sized to finish (2^20 ran past an hour)
     out = []
     lo = 0
     # one query per binade above 2^12 (the float expressions get harder with the magnitude), one for everything below
@@ -46,11 +46,11 @@ def configs(tier):
     Kn = 9 if q else 10
     for fam in ('ansi', 'fringe'):
         out.append({'name': '%s-inv-n<%d' % (fam, 1 << Kn), 'kind': 'inv', 'family': fam, 'nmax': 1 << Kn})
-    rows = 60 if q else 160
+    rows = 60 if q else 90
     step = 10 if q else 32
     for a in range(0, rows + 1, step):
         out.append({'name': 'noll-rows-%d-%d' % (a, min(a + step - 1, rows)), 'kind': 'noll_rows', 'rows': [a, min(a + step - 1, rows)]})
-    out.append({'name': 'xy-crosshair', 'kind': 'xy', 'jmax': 300 if q else 800})
+    out.append({'name': 'xy-crosshair', 'kind': 'xy', 'jmax': 300 if q else 500})
     return out
 
 
